@@ -123,6 +123,10 @@ func TypedUniverses() []*Univ {
 	}
 	us = append(us, MakeUniv("CatalogLike[string,MapLike[string,int]]", []col.CatalogLike[string, col.MapLike[string, int]]{CM.Make(), mkCM("k", mkM()), mkCM("k", abc()), mkCM("k", cba()), mkCM("k", abx()), mkCM("j", abc()), mkCM("k", mkM("a", 1))}))
 	us = append(us, MakeUniv("map[string]MapLike[string,int]", []map[string]col.MapLike[string, int]{{}, {"k": mkM()}, {"k": abc()}, {"k": cba()}, {"k": abx()}, {"j": abc()}, {"k": abc(), "j": cba()}, {"j": abc(), "k": cba()}}))
+	// fixed-size Go arrays are sequences too (and are never nil)
+	us = append(us, MakeUniv("[3]int", [][3]int{{0, 0, 0}, {0, 0, 1}, {0, 1, 0}, {1, 0, 0}, {-1, 5, 5}, {0, 0, 0}, {math.MaxInt, 0, 0}, {math.MinInt, 9, 9}}))
+	us = append(us, MakeUniv("[2]string", [][2]string{{"", ""}, {"", "a"}, {"a", ""}, {"a", "a"}, {"ab", ""}, {"b", "a"}, {"a", "a"}}))
+	us = append(us, MakeUniv("[][2]int", [][][2]int{nil, {}, {{0, 0}}, {{0, 1}}, {{0, 0}, {0, 0}}, {{1, 0}}, {{0, 1}, {0, 0}}}))
 	return us
 }
 
@@ -225,7 +229,7 @@ func AnyUniverse(block int) *Univ {
 
 // NumTyped is the number of typed corner universes; it is a constant so that
 // no repository code runs while the binary initialises (UniverseByIndex checks it).
-const NumTyped = 39
+const NumTyped = 42
 
 // NumUniverses is the number of corner universes (typed + three any blocks).
 func NumUniverses() int { return NumTyped + 3 }
